@@ -151,6 +151,9 @@ def run_case(desc):
     import skactiveml.utils as U
     rng = gen.rng_for("c18", desc["seed"])
     s = int(desc["seed"] % 100003)
+    if (desc["seed"] >> 11) % 5 == 0:
+        # every legal numpy seed is a legal seed here: the upper half of the 32-bit range, and its end points
+        s = [2**31 - 1, 2**31, 2**32 - 1, 2**31 + s, 0][(desc["seed"] >> 14) % 5]
     viol = []
     fc.drain()
     mode = desc["mode"]
